@@ -1,0 +1,7 @@
+//go:build !verif
+
+// Package verifhook is a no-op unless the module is built with the tag "verif".
+package verifhook
+
+// At does nothing in production builds.
+func At(string, ...any) {}
